@@ -413,6 +413,15 @@ func (f *frame) havocLoc(n *node, l modLoc) {
 	key := x.ptrKey(p)
 	pt := p.T.Underlying().(*types.Pointer).Elem()
 	eps := f.activeEpochs(n)
+	if name, ok := isOpaque(pt); ok && name == "math/big.Int" {
+		// `modifies *z` for a *big.Int: the integer it holds is unknown afterwards
+		arr := x.hget(n.heap, bigIntKey, SortInt, "")
+		fresh := x.g.Const("mod.big", SortInt)
+		x.hset(n.heap, bigIntKey, SortInt, "", x.g.Fresh(heapArraySort(SortInt, ""), "(store "+arr+" "+p.C[0]+" "+fresh+")"), p.C[0])
+		for _, ep := range eps {
+			ep.written[bigIntKey] = true
+		}
+	}
 	for _, c := range x.comps(pt) {
 		if p.Idx != "" {
 			k := key + c.suffix + "[]"
